@@ -1621,9 +1621,12 @@ class FakedWBEMConnection(WBEMConnection):
             namespace=namespace,
             QueryLanguage=params['QueryLanguage'],
             Query=params['Query'])
-        # Issue 2064: The following is untested because the
-        # mainprovider ExecQuery only generates exception.
-        return self._make_tuple([instances])
+        # Note: The default mainprovider ExecQuery only generates exception,
+        # so this is only reached with a user-provided implementation.
+        # WBEMConnection.ExecQuery() expects each instance as a
+        # (name, attrs, object) tuple, like for the VALUE.OBJECT* elements.
+        return self._make_tuple(
+            [('VALUE.OBJECT', {}, inst) for inst in instances])
 
     # CIMClass operations
 
